@@ -328,8 +328,8 @@ def run(ctx):
     # ---------------- (M)
     props_note = "C11 invariants + action properties, PrimaryNeverLost, AddOptsPost, AccessorsPure, DerivedHandlesAgree, NoSecretsGuard"
     mc = [("MC_KeysetHandle_dev_rest", "M:AddKeyWithOpts (40 option lists, incl. the deviation) x C11 ops, ID=1..3, <=2 entries, <=1 handle"),
-          ("MC_KeysetHandle_two", "M:two managers (isolation), ID=1..2, <=1 entry"),
           ("MC_KeysetHandle_mix_quick", "M:3 kinds of material x annotations, ID=1..2, <=1 entry, <=2 handles"),
+          ("MC_KeysetHandle_two", "M:two managers (isolation), ID=1..2, <=1 entry"),
           ("MC_KeysetHandle_table_quick", "M:AddKeyWithOpts decision table, every option list <= 2"),
           ("MC_KeysetHandle_htable_quick", "M:handle API table, keysets <= 2 keys over ID=1..2")]
     if ctx.thorough:
@@ -342,21 +342,38 @@ def run(ctx):
     skip_m = bool(os.environ.get("VERIF_X04_SKIP_M")) and bool(os.environ.get("VERIF_REPO"))
     if skip_m:
         ctx.log("NOTE: (M) skipped (mutation trial against VERIF_REPO: the model-checking stage does not involve the code; not evidence)")
+    # (M) does not involve the code: it runs in the background while the conformance stages (R), (T) run
+    pool = cf.ThreadPoolExecutor(max_workers=12)
+    futs = []
     if not ctx.replay and not skip_m:
-        with cf.ThreadPoolExecutor(max_workers=12) as ex:
-            # the largest configurations get several workers (vlib runs one multi-worker TLC at a time), the others one each
-            nbig = 2 if ctx.thorough else 1
-            futs = [ex.submit(ctx.model_check, "MC_KeysetHandle", cfg, stage=st, workers=(6 if i < nbig else 1), heap="6g", timeout=3400,
-                              must_cover=False)
-                    for i, (cfg, st) in enumerate(mc)]
-            futs += [ex.submit(expect_violation, ctx, "MC_KeysetHandle_dev_err", "ErrLeavesUnchanged",
-                               "M:EXPECTED violation of C11 ErrLeavesUnchanged by AddKeyWithOpts"),
-                     ex.submit(expect_violation, ctx, "MC_KeysetHandle_dev_primary", "PrimaryNeverLost",
-                               "M:EXPECTED violation of PrimaryNeverLost by AddKeyWithOpts")]
-            for f in futs:
-                f.result()
+        # the largest configurations get several workers (vlib runs one multi-worker TLC at a time), the others one each
+        nbig = 2
+        futs = [pool.submit(ctx.model_check, "MC_KeysetHandle", cfg, stage=st, workers=(6 if i < nbig else 1), heap="6g", timeout=3400,
+                            must_cover=False)
+                for i, (cfg, st) in enumerate(mc)]
+        futs += [pool.submit(expect_violation, ctx, "MC_KeysetHandle_dev_err", "ErrLeavesUnchanged",
+                             "M:EXPECTED violation of C11 ErrLeavesUnchanged by AddKeyWithOpts"),
+                 pool.submit(expect_violation, ctx, "MC_KeysetHandle_dev_primary", "PrimaryNeverLost",
+                             "M:EXPECTED violation of PrimaryNeverLost by AddKeyWithOpts")]
         ctx.stage("M:properties", checked=props_note)
+    try:
+        conformance(ctx, verdicts)
+    finally:
+        errs = []
+        for f in futs:
+            try:
+                f.result()
+            except Exception as ex:  # noqa
+                errs.append(ex)
+        pool.shutdown()
+    if errs:
+        raise errs[0]
+    verdicts.settle()
+    if not ctx.violations and not ctx.replay:
+        ctx.negative_control("Trace_KeysetHandle", ctx.x04_random_trace, corrupt, reset="reset")
 
+
+def conformance(ctx, verdicts):
     drv = ctx.go_build("x04")
     if ctx.replay:
         obj = json.load(open(ctx.replay))
@@ -368,7 +385,6 @@ def run(ctx):
         ctx.run([drv, "-out", trace, "-plan", plan])
         mism, _ = ctx.validate_events("Trace_KeysetHandle", trace, reset="reset")
         verdicts.take(mism, trace, [obj["scenario"]])
-        verdicts.settle()
         return
 
     # ---------------- (R) TLC-generated cases on real objects
@@ -417,9 +433,7 @@ def run(ctx):
     for k in (5, len(lines) // 2):
         ctx.sample(json.loads(lines[k]))
     ctx.cov["observations"] = observations(traces) + [dict(behaviour=s, calls_observed=0) for s in STATIC_OBSERVATIONS]
-    verdicts.settle()
-    if not ctx.violations:
-        ctx.negative_control("Trace_KeysetHandle", tr2, corrupt, reset="reset")
+    ctx.x04_random_trace = tr2
 
 
 MANIFEST = dict(
